@@ -607,6 +607,16 @@ def minimize_lbfgsb(
                 elif is_f0_min_change_reached(f0, f0_old, ftol, istate):
                     break  # the while loop
 
+            # When the gradient history has been rewritten the matrices must be
+            # rebuilt from it even if the newest pair is rejected, otherwise they
+            # keep describing the previous objective.
+            is_force_update = False
+            if update_fun_def is not None:
+                if len(X) > 1:
+                    is_force_update = True
+                else:
+                    mats = LBFGSB_MATRICES(n)
+
             mats = update_lbfgs_matrices(
                 x.copy(),  # copy otherwise x might be changed in X when updated
                 grad,
@@ -614,7 +624,7 @@ def minimize_lbfgsb(
                 G,
                 maxcor,
                 mats,
-                is_force_update=False,
+                is_force_update=is_force_update,
                 eps=eps_SY,
                 is_check_factorization=is_check_factorization,
             )
